@@ -34,6 +34,9 @@ package clientgen
 //@   modifies *
 //@   requires req != nil && c.httpClient != nil
 //@   at-call Do requires content_type_sent: count("Set:Content-Type") > old(count("Set:Content-Type"))
+// every query parameter is sent under its published name with the decimal / literal text of the field's own value in
+// the field's own type (what the server's converter parses back, C01 scalar lemmas), and only when it is not the zero value
+//@   at-call url.Values.Set requires value_is_the_printed_field: (arg0 == "page" && arg1 == strOfInt(req.Page) && req.Page != 0) || (arg0 == "tag" && arg1 == req.Tags && req.Tags != "") || (arg0 == "verbose" && req.Verbose && arg1 == "true") || (arg0 == "big" && arg1 == strOfInt(req.Big) && req.Big != 0)
 //@   at-call NewRequestWithContext requires verb: arg1 == "GET"
 //@   at-call unmarshalResponse requires only_on_success: count("Do") > old(count("Do")) && lastErrNil("Do") && lastErrNil("ReadAll")
 //@   at-call handleErrorResponse requires only_on_http_error: count("Do") > old(count("Do")) && lastErrNil("Do")
